@@ -45,6 +45,11 @@ def build_therm(sc):
     if sysn == "toy_multi":
         phases = {p["name"]: {"xb": p["xb"], "dH": p["dH"], "dS": p["dS"]} for p in sc["phases"]}
         return toy.ToyMulti(["A"] + sc["solutes"], phases, D0=sc["D0"], Q=sc["Q"])
+    if sysn in ("alzr", "nicral", "almgsi"):
+        from . import realdb
+        th = realdb.get({"alzr": "alzr:tangent", "nicral": "nicral_rev:tangent", "almgsi": "almgsi:tangent"}[sysn])
+        th.clearCache()
+        return th
     raise ValueError(sysn)
 
 
